@@ -20,10 +20,13 @@ type CronStateMachine struct {
 	day    *DayNode
 	month  csmNode
 	year   csmNode
+
+	// set when the search ran out of valid years
+	expired bool
 }
 
 func NewCronStateMachine(second, minute, hour csmNode, day *DayNode, month, year csmNode) *CronStateMachine {
-	return &CronStateMachine{second, minute, hour, day, month, year}
+	return &CronStateMachine{second, minute, hour, day, month, year, false}
 }
 
 func (csm *CronStateMachine) Value() time.Time {
@@ -42,7 +45,9 @@ func (csm *CronStateMachine) ValueWithLocation(loc *time.Location) time.Time {
 	)
 }
 
-func (csm *CronStateMachine) NextTriggerTime(loc *time.Location) time.Time {
+// NextTriggerTime returns the next trigger time; the second result is false
+// if there is none.
+func (csm *CronStateMachine) NextTriggerTime(loc *time.Location) (time.Time, bool) {
 	csm.findForward()
-	return csm.ValueWithLocation(loc)
+	return csm.ValueWithLocation(loc), !csm.expired
 }
